@@ -40,6 +40,23 @@ func c16OnceAssigned(body ast.Node) map[string]ast.Expr {
 					}
 				}
 			}
+		case *ast.DeclStmt:
+			if gd, ok := x.Decl.(*ast.GenDecl); ok && gd.Tok == token.VAR {
+				for _, sp := range gd.Specs {
+					vs, ok := sp.(*ast.ValueSpec)
+					if !ok {
+						continue
+					}
+					for i, n := range vs.Names {
+						count[n.Name]++
+						if len(vs.Values) == len(vs.Names) {
+							def[n.Name] = vs.Values[i]
+						} else {
+							count[n.Name]++ // declared without value: assigned later
+						}
+					}
+				}
+			}
 		case *ast.IncDecStmt:
 			if id, ok := x.X.(*ast.Ident); ok {
 				count[id.Name] += 2
@@ -144,10 +161,64 @@ func c16Unparen(e ast.Expr) ast.Expr {
 	}
 }
 
+// c16Files: the files of the root package (for following helpers).
+var c16Files []*ast.File
+
+// c16BoolHelper: `x.m()` where m is a same-package method whose body is a
+// single `return <expr>`: returns that expression and a substitution that
+// binds the method's receiver to x.
+func c16BoolHelper(e ast.Expr, subst map[string]ast.Expr) (ast.Expr, map[string]ast.Expr, bool) {
+	c, ok := e.(*ast.CallExpr)
+	if !ok || len(c.Args) != 0 {
+		return nil, nil, false
+	}
+	sel, ok := c.Fun.(*ast.SelectorExpr)
+	if !ok {
+		return nil, nil, false
+	}
+	for _, f := range c16Files {
+		for _, d := range f.Decls {
+			fd, ok := d.(*ast.FuncDecl)
+			if !ok || fd.Name.Name != sel.Sel.Name || fd.Recv == nil || fd.Body == nil || len(fd.Body.List) != 1 ||
+				len(fd.Recv.List) != 1 || len(fd.Recv.List[0].Names) != 1 {
+				continue
+			}
+			r, ok := fd.Body.List[0].(*ast.ReturnStmt)
+			if !ok || len(r.Results) != 1 {
+				continue
+			}
+			if _, isBin := c16Unparen(r.Results[0]).(*ast.BinaryExpr); !isBin {
+				continue
+			}
+			s2 := map[string]ast.Expr{}
+			for k, v := range subst {
+				s2[k] = v
+			}
+			// bind the receiver to the (already resolved) argument
+			s2[fd.Recv.List[0].Names[0].Name] = ast.NewIdent(c16Canon(sel.X, subst, 0))
+			return r.Results[0], s2, true
+		}
+	}
+	return nil, nil, false
+}
+
 func c16Flatten(e ast.Expr, op token.Token, subst map[string]ast.Expr, depth int) []string {
 	e = c16Unparen(e)
 	if b, ok := e.(*ast.BinaryExpr); ok && b.Op == op {
 		return append(c16Flatten(b.X, op, subst, depth), c16Flatten(b.Y, op, subst, depth)...)
+	}
+	if depth < 3 {
+		// a boolean local defined once, or a one-line boolean helper method
+		if id, ok := e.(*ast.Ident); ok {
+			if d, ok := subst[id.Name]; ok {
+				if _, isBin := c16Unparen(d).(*ast.BinaryExpr); isBin {
+					return c16Flatten(d, op, subst, depth+1)
+				}
+			}
+		}
+		if body, s2, ok := c16BoolHelper(e, subst); ok {
+			return c16Flatten(body, op, s2, depth+1)
+		}
 	}
 	return []string{c16Canon(e, subst, depth)}
 }
